@@ -443,30 +443,67 @@ def gen_queries(tier):
     out.append(("group", [T("?x", ":p", "?y"), ("optional", ("group", [T("?z", ":q", "?w"), ("filter", ("=", "?z", "?y"))]))]))
     out.append(("group", [T("?x", ":p", "?y"), ("minus", ("group", [T("?z", ":q", "?w"), ("filter", ("=", "?z", "?y"))]))]))
     out.append(("group", [T("?x", ":p", "?y"), ("union", ("group", [("filter", ("bound", "?x"))]), ("group", [T("?x", ":q", "?v")]))]))
+    # a sub-select inside OPTIONAL whose hidden variable ?v is bound outside
+    out.append(("group", [T("?x", ":q", "?v"), ("optional", ("group", [T("?x", ":p", "?y"), ("sub", ["?y"], ("group", [T("?y", ":q", "?v")]), False)]))]))
     rnd = random.Random(4)
     n_rand = 150 if tier == "quick" else 1500
 
-    def rpat(d):
+    def atom_vars(a):
+        return {x for t in a[1] for x in t if isinstance(x, str) and x.startswith("?")}
+
+    def expr_vars(e):
+        out = set()
+        for x in e[1:]:
+            if isinstance(x, str) and x.startswith("?"):
+                out.add(x)
+            elif isinstance(x, tuple):
+                if x and x[0] in ("bgp", "group"):
+                    out |= {"?__pattern__"}          # EXISTS patterns: only used where the generator allows them
+                else:
+                    out |= expr_vars(x)
+        return out
+
+    def pick_filter(in_scope, allow_exists):
+        """a filter whose variables are all bound by triple patterns of the same group (filters that look at variables
+        of an enclosing group are the known top-down/bottom-up difference: explicit cases above, not random ones)"""
+        cands = [e for e in EXPRS if expr_vars(e) <= in_scope or (allow_exists and "exists" in e[0])]
+        return rnd.choice(cands) if cands else None
+
+    def rpat(d, depth=0, no_sub=False):
         r = rnd.random()
         if d == 0 or r < 0.3:
             return rnd.choice(A)
-        els = [rnd.choice(A)]
+        first = rnd.choice(A)
+        els = [first]
+        here = set(atom_vars(first))
         for _ in range(rnd.randint(1, 3)):
             c = rnd.random()
             if c < 0.25:
-                els.append(rnd.choice(A))
+                a = rnd.choice(A)
+                els.append(a)
+                here |= atom_vars(a)
             elif c < 0.45:
-                els.append(("optional", ("group", [rpat(d - 1)] + ([("filter", rnd.choice(EXPRS))] if rnd.random() < 0.4 else []))))
+                if depth > 0:
+                    continue       # OPTIONAL below the top level is where top-down and bottom-up evaluation part ways
+                inner = rpat(d - 1, depth + 1, no_sub=True)     # (sub-select under OPTIONAL: explicit case above)
+                iv = atom_vars(inner) if inner[0] == "bgp" else set()
+                f = pick_filter(here | iv, False) if rnd.random() < 0.4 and inner[0] == "bgp" else None
+                els.append(("optional", ("group", [inner] + ([("filter", f)] if f else []))))
             elif c < 0.55:
-                els.append(("minus", ("group", [rpat(d - 1)])))
+                if depth == 0:
+                    els.append(("minus", ("group", [rpat(d - 1, depth + 1)])))
             elif c < 0.7:
-                els.append(("filter", rnd.choice(EXPRS)))
+                f = pick_filter(here, depth == 0)
+                if f:
+                    els.append(("filter", f))
             elif c < 0.8:
-                els.append(("union", ("group", [rpat(d - 1)]), ("group", [rpat(d - 1)])))
+                els.append(("union", ("group", [rpat(d - 1, depth + 1, no_sub)]), ("group", [rpat(d - 1, depth + 1, no_sub)])))
             elif c < 0.9:
-                els.append(("sub", rnd.sample(["?x", "?y", "?v"], 2), ("group", [rpat(d - 1)]), rnd.random() < 0.3))
+                if no_sub:
+                    continue
+                els.append(("sub", rnd.sample(["?x", "?y", "?v"], 2), ("group", [rpat(d - 1, depth + 1)]), rnd.random() < 0.3))
             else:
-                els.append(("group", [rpat(d - 1)]))
+                els.append(("group", [rpat(d - 1, depth + 1, no_sub)]))
         return ("group", els)
     for _ in range(n_rand):
         out.append(rpat(2))
